@@ -883,12 +883,14 @@ C04.manifest = {
             "(check_dist, check_result, the shortest-path-DAG enumeration) are proved sound/complete w.r.t. the spec "
             "and evaluated on the model's answer of every generated call. The model is tied to the code by the "
             "per-call correspondence (outcome, nodes, distances, path sets) and a reference oracle.",
-    "note": "Not proved, validated per generated case: the index->name translation of the entry points "
-            "(single_source / multi_source / all_pairs plumbing; compared per call with the implementation), and that "
-            "successors_vec agrees with the edge store (C03's subject; the oracle recomputes distances and all "
-            "shortest paths from the implementation's get_all_edges). The hypotheses of the theorems (well-formed "
-            "adjacency, non-negative costs) are evaluated on every generated graph (observation 46). Integer weights "
-            "(exact in binary64). Trusted: Coq kernel + vm_compute, harness/printers/diff. Axioms: none.",
+    "note": "single_source is also proved at the level of node names (C04_model_single_source_names: Ok, and the "
+            "returned map is the name translation of an index-level answer meeting the statement). Not proved, "
+            "validated per generated case: the name-level collection of multi_source / all_pairs beyond "
+            "'one per-source call each' (C08_model_*_per_source), and that successors_vec agrees with the edge store "
+            "(C03's subject; the oracle recomputes distances and all shortest paths from the implementation's "
+            "get_all_edges). The hypotheses of the theorems (well-formed adjacency, non-negative costs, coherent name "
+            "indexes) are evaluated on every generated graph (observation 46). Integer weights (exact in binary64). "
+            "Trusted: Coq kernel + vm_compute, harness/printers/diff. Axioms: none.",
     "technique": "Coq proof of the transcribed algorithm (loop invariants) + verified checkers + differential "
                  "correspondence + reference oracle",
 }
